@@ -148,10 +148,17 @@ func NewTransactionMap() *TransactionMap {
 	}
 }
 
-// Insert inserts a transaction to the map.
+// Insert inserts a transaction to the map. It returns false, and leaves the
+// map alone, when there is a transaction with this key already: replacing it
+// would leave the older one unreachable for its response, its retransmission
+// timer and CloseAndDeleteAll, and whoever waits for it would wait forever.
 func (m *TransactionMap) Insert(key string, tr *Transaction) bool {
 	m.mutex.Lock()
 	defer m.mutex.Unlock()
+
+	if _, ok := m.trMap[key]; ok {
+		return false
+	}
 
 	m.trMap[key] = tr
 
